@@ -98,9 +98,6 @@ theorem cos_angle_bounds (r0 r1 : V3) (h0 : V3.dot r0 r0 ≠ 0) (h1 : V3.dot r1 
   rw [le_div_iff₀ hp, div_le_iff₀ hp]
   constructor <;> linarith
 
-theorem norm_expand (a : V3) : Real.sqrt (a.x ^ 2 + a.y ^ 2 + a.z ^ 2) = V3.norm a := by
-  simp only [V3.norm, V3.dot, sqrt]; congr 1; ring
-
 /-- **the direction / way selection of `_lambert`, as it is in the source today** (`lamDthetaSrc` is translated from the
 statements of `_lambert` before `A = …` on every run): `arccos` of the normalised dot product, replaced by its complement
 to 2π when a prograde request meets `cr[2] < 0` (strict) or a retrograde request meets `cr[2] >= 0` (non-strict) — so
